@@ -2,7 +2,7 @@ import LunarVerif.Model.FlowExec
 /-
 C05 model: the LOADER (`streams.NewValidationStream(dir).Initialize()`, the call behind
 `validate_flows`, `load_flows`, `/configuration` and the standalone flows-validator) as a function
-from a configuration directory to  accept | reject:<class> | panic | crash,  and the execution of
+from a configuration directory to  accept | reject:<class>  (| crash: never, see `load_terminates`), and the execution of
 transactions on what was loaded.  Core Lean only.
 
 Go sources mirrored (proxy/src/services/lunar-engine/streams unless noted):
@@ -29,18 +29,6 @@ FUEL: running out of fuel models Go's unbounded recursion (`fatal error: stack o
 -/
 namespace LunarVerif.C05
 open LunarVerif.FlowGraph LunarVerif.FlowExec
-
-/-! ### the fixed cycle check (the proposed `fix:` for F05a) -/
-
-/-- the DFS `detectCircularConnections` runs for the root, run for node `n` -/
-def dfsFrom (g : DirGraph) (n : Node) : Bool :=
-  n.edges.all fun e =>
-    match e.target with
-    | .stream _ _ => true
-    | .node t => dfs g (dfsFuel g) [] t e.cond
-
-/-- run it from every node of the direction -/
-def noCycleAnywhere (g : DirGraph) : Bool := g.nodes.all (dfsFrom g)
 
 /-! ### configuration -/
 
@@ -279,13 +267,14 @@ def quotaUrls (q : QEntry) (ils : List QEntry) : List String :=
 inductive QRes where
   | ok (urls : List String)
   | reject
-  | panic
 deriving DecidableEq, Repr, Inhabited
 
-/-- parse + validate one quota file (`loadAndParseQuotaFiles` loop body) -/
+/-- parse + validate one quota file (`loadAndParseQuotaFiles` loop body).  Null list entries are refused
+    first (fix of F05c: before `ToSingleQuotaResourceDataList` dereferences them), whether or not the file
+    has quotas. -/
 def fileCheck (f : QFile) : QRes :=
+  if f.quotas.any (·.null) || f.internals.any (·.null) then .reject else
   if f.quotas.isEmpty then .ok [] else
-  if f.quotas.any (·.null) || f.internals.any (·.null) then .panic else
   if !(f.quotas.all (entryTagsOk false) && f.internals.all (entryTagsOk true)) then .reject else
   if f.quotas.any (fun q => q.url.isNone) then .reject else
   if !(f.quotas.all fun q => specificOk q (attach [q.id] f.internals)) then .reject else .ok []
@@ -294,7 +283,6 @@ def filesCheck : Nat → List (Nat × List Char) × List (List Char × Nat) → 
   | _, _, [] => .ok []
   | i, st, f :: fs =>
     match fileCheck f with
-    | .panic => .panic
     | .reject => .reject
     | .ok _ =>
       match hostSteps i st (hostUrls f) with
@@ -313,7 +301,6 @@ def allQuotaUrls (fs : List QFile) : List String :=
     system flows -/
 def quotaCheck (fs : List QFile) : QRes :=
   match filesCheck 0 ([], []) fs with
-  | .panic => .panic
   | .reject => .reject
   | .ok _ => if resourcesOk fs then .ok (allQuotaUrls fs) else .reject
 
@@ -360,86 +347,94 @@ def getOrCreateX (fs : List XFlow) (cur : String) (s : BS) (k : String) : Option
 
 def BS.addEdge (s : BS) (k : String) (e : Edge) : BS := { s with g := addEdgeTo s.g k e }
 
-/-- `buildConnections(cur, flowDir, conns)` where `flowDir` belongs to flow `home`; every processed
-    connection costs one unit of fuel. -/
-def buildX (pts : List PType) (fs : List XFlow) (home : String) (d : Dir) :
-    Nat → String → BS → List XConn → Except XErr BS
-  | _, _, s, [] => .ok s
-  | 0, _, _, _ :: _ => .error .fuel
-  | fuel + 1, cur, s, c :: cs =>
-    let condOk : Bool :=
-      match c.src with
-      | .proc f cond => validateCondition pts (procsOf fs cur) d f cond
-      | _ => true
-    if !condOk then .error (.build .condition) else
-    let step : Except XErr BS :=
-      match c.src, c.dst with
-      | .proc f cond, .proc t _ =>
-        match getOrCreateX fs cur s f with
-        | none => .error (.build .node)
-        | some s1 =>
-          match getOrCreateX fs cur s1 t with
-          | none => .error (.build .node)
-          | some s2 => .ok (s2.addEdge f ⟨cond, .node t⟩)
-      | .stream _ at_, .proc t _ =>
-        if at_ == "start" then
-          match getOrCreateX fs cur s t with
-          | none => .error (.build .node)
-          | some s1 =>
-            if s1.ownerOf t == home then .ok { s1 with g := { s1.g with root := some t } }
-            else .ok { s1 with foreign := some t }
-        else .error (.build .connection)
-      | .flow src at_, .proc t _ =>
-        if at_ == "end" then
-          match getOrCreateX fs cur s t with
-          | none => .error (.build .node)
-          | some s1 =>
-            let s2 : BS := { s1 with g := { s1.g with root := some t } }
-            match findFlow fs src with
-            | none => .error .flowRef
-            | some sf =>
-              match buildX pts fs home d fuel src s2 (sf.conns d) with
-              | .error e => .error e
-              | .ok s3 =>
-                match s3.foreign with
-                | none => .error .foreignRoot
-                | some r => .ok { s3 with g := { s3.g with root := some r }, foreign := none }
-        else .error (.build .connection)
-      | .proc f cond, .stream n at_ =>
-        if at_ == "end" then
-          match getOrCreateX fs cur s f with
-          | none => .error (.build .node)
-          | some s1 =>
-            if d == .req && s1.ownerOf f != home then
-              match s1.g.root with
-              | none => .error .foreignRoot
-              | some r => .ok (s1.addEdge f ⟨cond, .node r⟩)
-            else .ok (s1.addEdge f ⟨cond, .stream n at_⟩)
-        else .error (.build .connection)
-      | .proc f cond, .flow tgt at_ =>
-        if at_ == "start" then
-          match getOrCreateX fs cur s f with
-          | none => .error (.build .node)
-          | some s1 =>
-            match findFlow fs tgt with
-            | none => .error .flowRef
-            | some tf =>
-              match buildX pts fs home d fuel tgt s1 (tf.conns d) with
-              | .error e => .error e
-              | .ok s2 =>
-                match s2.foreign with
-                | none => .error .foreignRoot
-                | some r => .ok ({ s2 with foreign := none }.addEdge f ⟨cond, .node r⟩)
-        else .error (.build .connection)
-      | .stream _ _, .stream _ _ => .ok s
-      | _, _ => .error (.build .connection)
-    match step with
-    | .error e => .error e
-    | .ok s' => buildX pts fs home d fuel cur s' cs
+/-- `buildConnection(cur, flowDir, conn)` where `flowDir` belongs to flow `home`; `inc tgt s` is
+    `incorporateFlow(tgt, flowDir)` run in builder state `s`. -/
+def stepX (pts : List PType) (fs : List XFlow) (home : String) (d : Dir) (inc : String → BS → Except XErr BS)
+    (cur : String) (s : BS) (c : XConn) : Except XErr BS :=
+  let condOk : Bool :=
+    match c.src with
+    | .proc f cond => validateCondition pts (procsOf fs cur) d f cond
+    | _ => true
+  if !condOk then .error (.build .condition) else
+  match c.src, c.dst with
+  | .proc f cond, .proc t _ =>
+    match getOrCreateX fs cur s f with
+    | none => .error (.build .node)
+    | some s1 =>
+      match getOrCreateX fs cur s1 t with
+      | none => .error (.build .node)
+      | some s2 => .ok (s2.addEdge f ⟨cond, .node t⟩)
+  | .stream _ at_, .proc t _ =>
+    if at_ == "start" then
+      match getOrCreateX fs cur s t with
+      | none => .error (.build .node)
+      | some s1 =>
+        if s1.ownerOf t == home then .ok { s1 with g := { s1.g with root := some t } }
+        else .ok { s1 with foreign := some t }
+    else .error (.build .connection)
+  | .flow src at_, .proc t _ =>
+    if at_ == "end" then
+      match getOrCreateX fs cur s t with
+      | none => .error (.build .node)
+      | some s1 =>
+        match inc src { s1 with g := { s1.g with root := some t } } with
+        | .error e => .error e
+        | .ok s3 =>
+          match s3.foreign with
+          | none => .error .foreignRoot
+          | some r => .ok { s3 with g := { s3.g with root := some r }, foreign := none }
+    else .error (.build .connection)
+  | .proc f cond, .stream n at_ =>
+    if at_ == "end" then
+      match getOrCreateX fs cur s f with
+      | none => .error (.build .node)
+      | some s1 =>
+        if d == .req && s1.ownerOf f != home then
+          match s1.g.root with
+          | none => .error .foreignRoot
+          | some r => .ok (s1.addEdge f ⟨cond, .node r⟩)
+        else .ok (s1.addEdge f ⟨cond, .stream n at_⟩)
+    else .error (.build .connection)
+  | .proc f cond, .flow tgt at_ =>
+    if at_ == "start" then
+      match getOrCreateX fs cur s f with
+      | none => .error (.build .node)
+      | some s1 =>
+        match inc tgt s1 with
+        | .error e => .error e
+        | .ok s2 =>
+          match s2.foreign with
+          | none => .error .foreignRoot
+          | some r => .ok ({ s2 with foreign := none }.addEdge f ⟨cond, .node r⟩)
+    else .error (.build .connection)
+  | .stream _ _, .stream _ _ => .ok s
+  | _, _ => .error (.build .connection)
 
-/-- fuel given to `buildX` by the loader model (far above what any terminating build of the generated
-    configurations needs) -/
-def buildFuel : Nat := 4000
+/-- `buildConnections(cur, flowDir, conns)`; `stack` = the flows whose incorporation is in progress
+    (`flowBuilder.incorporating`, fix of F05b): a reference to one of them, or to the flow the direction
+    belongs to, is refused ("circular flow reference detected").  FUEL bounds the depth of the recursion;
+    `buildX_noFuel` shows that `buildFuel` is never exhausted. -/
+def buildX (pts : List PType) (fs : List XFlow) (home : String) (d : Dir) :
+    Nat → List String → String → BS → List XConn → Except XErr BS
+  | _, _, _, s, [] => .ok s
+  | 0, _, _, _, _ :: _ => .error .fuel
+  | fuel + 1, stack, cur, s, c :: cs =>
+    let inc : String → BS → Except XErr BS := fun tgt s' =>
+      match findFlow fs tgt with
+      | none => .error .flowRef
+      | some tf =>
+        if stack.contains tgt || tgt == home then .error .flowRef
+        else buildX pts fs home d fuel (tgt :: stack) tgt s' (tf.conns d)
+    match stepX pts fs home d inc cur s c with
+    | .error e => .error e
+    | .ok s' => buildX pts fs home d fuel stack cur s' cs
+
+/-- longest connection list of any flow -/
+def maxConns (fs : List XFlow) : Nat := fs.foldl (fun m f => max m (max f.req.length f.res.length)) 0
+
+/-- fuel given to `buildX` by the loader: enough for every configuration (`buildX_noFuel`): the nesting of
+    incorporations is at most the number of flows, each level adds at most `maxConns` -/
+def buildFuel (fs : List XFlow) : Nat := (fs.length + 1) * maxConns fs + 1
 
 /-! ### reference-free flows go through the shared builder -/
 
@@ -462,10 +457,10 @@ def XFlow.rep (f : XFlow) : FlowRep :=
     the builder, not of the flow) -/
 def buildFlowX (pts : List PType) (fs : List XFlow) (f : XFlow) (foreign : Option String) :
     Except XErr (Flow × Option String) :=
-  match buildX pts fs f.name .req buildFuel f.name { foreign := foreign } f.req with
+  match buildX pts fs f.name .req (buildFuel fs) [] f.name { foreign := foreign } f.req with
   | .error e => .error e
   | .ok s1 =>
-    match buildX pts fs f.name .res buildFuel f.name { foreign := s1.foreign } f.res with
+    match buildX pts fs f.name .res (buildFuel fs) [] f.name { foreign := s1.foreign } f.res with
     | .error e => .error e
     | .ok s2 =>
       match validateDirection .req s1.g with
@@ -500,8 +495,7 @@ def buildAll (pts : List PType) (fs : List XFlow) : List XFlow → Option String
 inductive LoadRes where
   | accept (flows : List Flow)
   | reject (cls : String)
-  | panic (cls : String)
-  | crash                      -- fatal error: stack overflow
+  | crash                      -- fuel exhausted (Go: stack overflow); never happens, see `load_terminates`
 deriving DecidableEq, Repr, Inhabited
 
 def firstSome {α : Type} (f : α → Option String) : List α → Option String
@@ -513,7 +507,6 @@ def firstSome {α : Type} (f : α → Option String) : List α → Option String
 /-- `NewValidationStream(dir).Initialize()` -/
 def load (c : Cfg) : LoadRes :=
   match quotaCheck c.qfiles with
-  | .panic => .panic "nil-deref"
   | .reject => .reject "quota"
   | .ok qurls =>
     if !c.flows.all flowYamlOk then .reject "yaml" else
